@@ -175,6 +175,14 @@ ParseFields(s) ==
      h |-> Num2(s, 18), mi |-> Num2(s, 21), s |-> Num2(s, 24), off |-> 0]
 Parse(s) == InstantOf(ParseFields(s))
 
+\* RFC 1123 (via RFC 822) writes the day of the month as 1*2DIGIT: "Wed, 1 May 2019 15:00:00 GMT" is the same date
+\* as "Wed, 01 May 2019 15:00:00 GMT" (strptime's %d reads both).  Compact(s) drops the leading zero of the day,
+\* Normalise puts it back; ParseAny reads either form.
+Compact(s) == IF Char(s, 6) = "0" THEN SubSeq(s, 1, 5) \o SubSeq(s, 7, Len(s)) ELSE s
+Normalise(s) == IF Len(s) = 28 /\ IsDigit(Char(s, 6)) /\ Char(s, 7) = " "
+                THEN SubSeq(s, 1, 5) \o "0" \o SubSeq(s, 6, 28) ELSE s
+ParseAny(s) == Parse(Normalise(s))
+
 \* parse_http_date(ds, tz): the aware datetime in zone z for the text
 ParseIn(s, z) == ToLocal(z, Parse(s))
 
@@ -233,8 +241,12 @@ ThCalendar(t) ==
        /\ c.m \in 1..12 /\ c.d \in 1..DaysInMonth(c.y, c.m)
        /\ Weekday(n) = WeekdayOfCivil(c.y, c.m, c.d)
 
+\* both spellings of the day denote the same instant
+ThCompactDay(t) == ParseAny(Compact(Format(t))) = t /\ ParseAny(Format(t)) = t
+                   /\ (Compact(Format(t)) # Format(t) <=> CivilFromDays(t \div DAY).d < 10)
+
 TimeTheorems(z, t) ==
-    /\ ThTextWellFormed(t) /\ ThParseFormat(t) /\ ThFormatParse(t)
+    /\ ThTextWellFormed(t) /\ ThParseFormat(t) /\ ThFormatParse(t) /\ ThCompactDay(t)
     /\ ThSameInstant(z, t) /\ ThFieldsValid(z, t)
     /\ ThNoSkippedHour(z, t) /\ ThClockStep(z, t) /\ ThCalendar(t)
 =============================================================================
